@@ -11,6 +11,7 @@ use crate::evalx::{fmt_runs, real_day_runs};
 use crate::features;
 use crate::gen::alphabet as al;
 use crate::gen::ast::*;
+use opening_hours_syntax::rules::time::TimeEvent;
 use crate::gen::print::canon;
 use crate::model::{Evaluator, Events, ModelCtx};
 use crate::report::{Acc, Outcome, Violation};
@@ -111,6 +112,63 @@ pub fn check_expr_ctx(
     (n, ok, unspec, changes, varied)
 }
 
+/// Event-based expressions under located contexts (time zone + coordinates): the model is fed
+/// the event times of the real `Localize` (so this checks the span / wrap / spill logic on
+/// date-dependent spans; the event values themselves are C11's subject).
+pub fn check_expr_located(text: &str, model_ast: &OpeningHoursExpression, name: &str, lat: f64, lon: f64, blocks: &[(NaiveDate, NaiveDate)], acc: &mut Acc) -> (u64, u64, u64) {
+    use opening_hours::localization::{Coordinates, Localize, TzLocation};
+    let Some(coords) = Coordinates::new(lat, lon) else { return (0, 0, 0) };
+    let loc = TzLocation::from_coords(coords);
+    let Ok(Ok(oh)) = catch(|| OpeningHours::parse(text)) else { return (0, 0, 0) };
+    let oh = oh.with_context(opening_hours::Context::default().with_locale(loc.clone()));
+    let empty = std::collections::BTreeSet::new();
+    let lookup = |d: NaiveDate, ev: TimeEvent| -> u16 {
+        use chrono::Timelike;
+        let t = loc.event_time(d, ev);
+        (t.hour() * 60 + t.minute()) as u16
+    };
+    let mctx = ModelCtx { public: &empty, school: &empty, events: Events::Lookup(&lookup) };
+    let mut ev = Evaluator::new(model_ast, &mctx);
+    let (mut n, mut ok, mut unspec) = (0u64, 0u64, 0u64);
+    for (a, b) in blocks {
+        let mut d = *a;
+        loop {
+            n += 1;
+            match catch(|| real_day_runs(&oh, d)) {
+                Err(p) => {
+                    if ev.day(d).is_some() {
+                        acc.violate(Violation::new("schedule_at_panic", features::of_expr(model_ast), json!({"expr": text, "ctx": name, "date": d.to_string()}), format!("schedule_at({d}) [{name}] panicked: {} at {}", p.msg, p.loc)));
+                    }
+                    return (n, ok, unspec);
+                }
+                Ok(real) => match ev.day(d) {
+                    None => unspec += 1,
+                    Some(m) => {
+                        if m.runs == real {
+                            ok += 1;
+                        } else {
+                            acc.violate(Violation::new(
+                                "day_schedule_differs_from_model",
+                                features::of_expr(model_ast),
+                                json!({"expr": text, "ctx": name, "date": d.to_string()}),
+                                format!("`{text}` [{name} ({lat}, {lon})] on {d}: schedule_at = [{}], documented semantics with the same event times = [{}]", fmt_runs(&real), fmt_runs(&m.runs)),
+                            ));
+                            return (n, ok, unspec);
+                        }
+                    }
+                },
+            }
+            if d >= *b {
+                break;
+            }
+            d = d.succ_opt().unwrap();
+        }
+    }
+    (n, ok, unspec)
+}
+
+pub const LOCATED: [(&str, f64, f64); 4] = [("Paris", 48.8535, 2.34839), ("Kashgar", 39.47, 75.99), ("Apia", -13.83, -171.77), ("60N-Magadan", 59.56, 150.8)];
+
 fn process(item: &Item, ctxs: &[Ctx], blocks: &[(NaiveDate, NaiveDate)], acc: &mut Acc) {
     let (text, ast) = match item {
         Item::Ast(e) => match canon(e) {
@@ -137,6 +195,19 @@ fn process(item: &Item, ctxs: &[Ctx], blocks: &[(NaiveDate, NaiveDate)], acc: &m
         acc.add("unspecified_skipped", unspec);
         acc.add("transitions", changes);
         nontrivial |= varied;
+    }
+    if crate::model::has_events(&ast) {
+        // one year around both solstices is enough for the located contexts (the span logic does
+        // not depend on the year; dusk after local midnight happens in June at 60°N / in Kashgar)
+        let yr = [(crate::util::ymd(2024, 1, 1), crate::util::ymd(2024, 12, 31))];
+        for (name, lat, lon) in LOCATED {
+            let (n, ok, unspec) = check_expr_located(&text, &ast, name, lat, lon, &yr, acc);
+            acc.add("states", n);
+            acc.add("evaluations", n);
+            acc.add("located_context_days", n);
+            acc.add("traces_validated_against_impl", ok);
+            acc.add("unspecified_skipped", unspec);
+        }
     }
     acc.add("expressions", 1);
     if nontrivial {
@@ -210,7 +281,7 @@ pub fn run(cfg: &Cfg) -> Outcome {
     o.cov("window_days", json!(windows::days(&blocks)));
     o.cov("contexts", json!(ctxs.iter().map(|c| c.name).collect::<Vec<_>>()));
     o.cov("model_self_check_comparisons", json!(n_self));
-    o.cov("rule", json!("bounded exhaustive: every expression of the family (E1 ≤1/≤2 kinds × times × modifiers; E2 pairs of R2 × 3 separators; E3 triples of R3 × 9 separator pairs — quick tier takes a fixed stride through E2/E3 — plus the corpus S) × every context × every day of the window; states = (expr, ctx, day) triples, transitions = day→day+1 steps where the real schedule changed, validated = triples where the real schedule_at equals the reference model M; unspecified_skipped = triples on which M abstains; non-trivial = expression parsed and its schedule is not the same on every day of the window"));
+    o.cov("rule", json!("bounded exhaustive: every expression of the family (E1 ≤1/≤2 kinds × times × modifiers; E2 pairs of R2 × 3 separators; E3 triples of R3 × 9 separator pairs — quick tier takes a fixed stride through E2/E3 — plus the corpus S) × every context × every day of the window; event-based expressions additionally under 4 located contexts (Paris, Kashgar, Apia, 60°N) on every day of 2024 with the model fed the real Localize's event times; states = (expr, ctx, day) triples, transitions = day→day+1 steps where the real schedule changed, validated = triples where the real schedule_at equals the reference model M; unspecified_skipped = triples on which M abstains; non-trivial = expression parsed and its schedule is not the same on every day of the window"));
     o.assume("the reference model M (engine/src/model) transcribes the documented semantics table of DESIGN §2.3; rows marked 'pinned to current behaviour' detect changes but cannot certify the choice");
     o.assume("chrono date arithmetic (weekday, ISO week, successor)");
     o
